@@ -192,7 +192,8 @@ func (s *Stream) SetReadDeadline(deadline time.Time) error {
 				s.readTimeoutCancel = nil
 				s.lock.Unlock()
 
-				s.readNotifier.Signal()
+				// Every blocked reader has to see the deadline.
+				s.readNotifier.Broadcast()
 			}
 		}(s.readTimeoutCancel)
 	}
